@@ -41,4 +41,121 @@ theorem src_vlq_loop1 : ∀ (v fuel : Nat), v ≤ fuel → ∀ bytes : List Int,
       rw [e1, e2, hrec, lsbGroups]
       simp
 
+/-- set the continuation bit in every element but the last: what the `for` loop does -/
+def hiAllButLast : List Nat → List Nat
+  | [] => []
+  | [x] => [x]
+  | x :: y :: r => (x ||| 128) :: hiAllButLast (y :: r)
+
+theorem idx_mid (pre : List Nat) (x : Nat) (t : List Nat) :
+    idx ((pre ++ x :: t).map Int.ofNat) (pre.length : Int) = .ok (x : Int) := by
+  have h : ¬ ((pre.length : Int) < 0) := by omega
+  simp [idx, h]
+
+theorem setIdx_mid (pre : List Nat) (x : Nat) (t : List Nat) (v : Nat) :
+    setIdx ((pre ++ x :: t).map Int.ofNat) (pre.length : Int) (v : Int)
+      = .ok (((pre ++ [v]) ++ t).map Int.ofNat) := by
+  have h : ¬ ((pre.length : Int) < 0) := by omega
+  have h2 : ¬ ((pre.length : Int) ≥ ((pre.length + (t.length + 1) : Nat) : Int)) := by omega
+  simp [setIdx, h]
+  omega
+
+/-- the `for i in range(len(bytes) - 1): bytes[i] |= 0x80` loop, for any loop body `F` that reads element `i`,
+    ors 128 into it and writes it back (stated through `F` because two `match` expressions that are equal by
+    definition need not be syntactically the same term) -/
+theorem src_vlq_hi_loop (F : Int → List Int → Except Err (ForInStep (List Int)))
+    (hF : ∀ i s, F i s = (do let v ← idx s i; let s' ← setIdx s i (lor v 128); pure (ForInStep.yield s'))) :
+    ∀ (l pre : List Nat),
+    forIn ((List.range' pre.length (l.length - 1)).map Int.ofNat) ((pre ++ l).map Int.ofNat) F
+      = .ok ((pre ++ hiAllButLast l).map Int.ofNat)
+  | [], pre => by simp [hiAllButLast, pure, Except.pure]
+  | [x], pre => by simp [hiAllButLast, pure, Except.pure]
+  | x :: y :: r, pre => by
+    have ih := src_vlq_hi_loop F hF (y :: r) (pre ++ [x ||| 128])
+    have hlen : (x :: y :: r).length - 1 = r.length + 1 := by simp
+    have hlen2 : (y :: r).length - 1 = r.length := by simp
+    rw [hlen, List.range'_succ, List.map_cons, List.forIn_cons, hF]
+    have e1 := idx_mid pre x (y :: r)
+    simp only [Int.ofNat_eq_natCast] at e1 ⊢
+    have e2 := setIdx_mid pre x (y :: r) (x ||| 128)
+    have e3 : lor (x : Int) 128 = ((x ||| 128 : Nat) : Int) := lor_lit_right x 128
+    simp only [e1, e3, e2, bind, Except.bind, pure, Except.pure]
+    rw [hlen2] at ih
+    simp only [List.length_append, List.length_cons, List.length_nil, Nat.zero_add, Int.ofNat_eq_natCast] at ih
+    simpa [hiAllButLast] using ih
+
+theorem hiAllButLast_snoc : ∀ (xs : List Nat) (z : Nat),
+    hiAllButLast (xs ++ [z]) = xs.map (· ||| 128) ++ [z]
+  | [], z => by simp [hiAllButLast]
+  | [x], z => by simp [hiAllButLast]
+  | x :: y :: r, z => by
+    have ih := hiAllButLast_snoc (y :: r) z
+    simp only [List.cons_append] at ih ⊢
+    rw [hiAllButLast, ih]; simp
+
+theorem or_128_of_lt : ∀ x, x < 128 → x ||| 128 = x + 128 := by decide
+
+theorem lsbGroups_lt : ∀ (n : Nat), ∀ g ∈ lsbGroups n, g < 128 := by
+  intro n
+  induction n using Nat.strongRecOn with
+  | _ n ih =>
+    match n with
+    | 0 => simp [lsbGroups]
+    | k + 1 =>
+      rw [lsbGroups]
+      intro g hg
+      simp only [List.mem_cons] at hg
+      rcases hg with h | h
+      · omega
+      · exact ih ((k + 1) / 128) (by omega) g h
+
+/-- the model's recursive encoder in terms of the groups the loop collects -/
+theorem encVlqAux_groups : ∀ (n : Nat) (tail : List Nat),
+    encVlqAux n tail = (lsbGroups n).reverse.map (· + 128) ++ tail := by
+  intro n
+  induction n using Nat.strongRecOn with
+  | _ n ih =>
+    intro tail
+    match n with
+    | 0 => simp [encVlqAux, lsbGroups]
+    | k + 1 =>
+      rw [encVlqAux, lsbGroups, ih ((k + 1) / 128) (by omega)]
+      simp
+
+/-- `encode_variable_int`, as translated from the source, is the model's `encVlq` on every natural number -/
+theorem src_encode_variable_int (v : Nat) :
+    Src.encode_variable_int (v : Int) = .ok (natsToInts (encVlq v)) := by
+  have hneg : ¬ ((v : Int) < 0) := by omega
+  simp only [Src.encode_variable_int, hneg, Int.toNat_natCast, src_vlq_loop1 v v (Nat.le_refl _) [], pure,
+    Except.pure, bind, Except.bind, Bool.not_true, decide_false, Bool.or_false, Bool.false_eq_true, if_false,
+    List.nil_append]
+  match v with
+  | 0 => simp [lsbGroups, encVlq, encVlqAux, natsToInts]
+  | k + 1 =>
+    have hg : lsbGroups (k + 1) = ((k + 1) % 128) :: lsbGroups ((k + 1) / 128) := by rw [lsbGroups]
+    have hne : (!(List.map Int.ofNat (lsbGroups (k + 1))).isEmpty) = true := by simp [hg]
+    simp only [hne, if_true]
+    have hloop := fun F hF => src_vlq_hi_loop F hF (lsbGroups (k + 1)).reverse []
+    simp only [List.length_nil, List.nil_append, List.length_reverse] at hloop
+    have hr : rangeInt (len (List.map Int.ofNat (lsbGroups (k + 1))).reverse - 1)
+        = (List.range' 0 ((lsbGroups (k + 1)).length - 1)).map Int.ofNat := by
+      simp only [rangeInt, len, List.length_reverse, List.length_map, List.range_eq_range']
+      congr 2
+      have : 1 ≤ (lsbGroups (k + 1)).length := by simp [hg]
+      omega
+    rw [hr, ← List.map_reverse, hloop]
+    case hF => intro i s; rfl
+    simp only [natsToInts, encVlq, encVlqAux_groups]
+    congr 1
+    rw [hg, List.reverse_cons, hiAllButLast_snoc]
+    congr 2
+    apply List.map_congr_left
+    intro g hgm
+    exact or_128_of_lt g (lsbGroups_lt _ g (by simpa using hgm))
+
+/-- negative values are refused with ValueError (the type test is resolved by the declared type) -/
+theorem src_encode_variable_int_neg (v : Int) (h : v < 0) :
+    Src.encode_variable_int v = .error .ValueError := by
+  simp [Src.encode_variable_int, h, bind, Except.bind, throw, throwThe, MonadExceptOf.throw]
+
 end Mido
